@@ -1,5 +1,6 @@
 import RsslVerif.Model.Fixpoint
 import RsslVerif.Model.GenHlsl
+import RsslVerif.Model.Format
 /-!
 # `Model.FixpointBridge` — between the C01 IR (`Model.Ir`, scalar subset, constants with values) and the C03
 # elaborated-expression type (`IrTyping.IExpr`, all types, constants by kind)
@@ -146,6 +147,66 @@ structure NamesAgree (cx : GenHlsl.Ctx) (ix : Idx) (nm : Names) (Γ' : Env) : Pr
   loc : ∀ id j, ix.var (.loc id) = some j → nm.res (cx.locName id) = some j
   glob : ∀ id j, ix.var (.glob id) = some j → nm.res (cx.globName id) = some j
   func : ∀ f j, ix.func f = some j → nm.fres (cx.funcName f) = some j ∧ ∃ sg, Γ'.funcs[j]? = some sg ∧ sg.name = j
+
+/-! ## constants, and the exporter's tree as the printer's tree -/
+
+mutual
+/-- the constants of an expression, left to right (what `erase` forgets) -/
+def leaves : Ir.Expr → List Ir.Const
+  | .lit c => [c]
+  | .var _ => []
+  | .global _ => []
+  | .op _ args => leavesArgs args
+  | .tern c t f => leaves c ++ (leaves t ++ leaves f)
+  | .seq es => leavesArgs es
+  | .cast _ e => leaves e
+  | .call _ args => leavesArgs args
+  | .intr _ _ _ args => leavesArgs args
+def leavesArgs : Ir.Exprs → List Ir.Const
+  | .nil => []
+  | .cons e r => leaves e ++ leavesArgs r
+end
+
+/-- positions determine the entity (distinct variables / functions have distinct positions) -/
+structure IdxInj (ix : Idx) : Prop where
+  var : ∀ v w j, ix.var v = some j → ix.var w = some j → v = w
+  func : ∀ f g j, ix.func f = some j → ix.func g = some j → f = g
+
+/-- an `ast::Literal` of the subset as the literal value of the C09 printer model (sign bit apart) -/
+def toFmtLit : HlslAst.Lit → RsslVerif.Gen.ParseTables.Lit
+  | .bool b => ⟨.Bool, false, if b then 1 else 0⟩
+  | .intUntyped n => ⟨.IntUntyped, false, n⟩
+  | .intUnsigned32 n => ⟨.IntUnsigned32, false, n⟩
+  | .float32 b => ⟨.Float32, b.msb, b.toNat % 2 ^ 31⟩
+  | .floatUntyped b => ⟨.FloatUntyped, b.msb, b.toNat % 2 ^ 63⟩
+
+mutual
+/-- the exporter's tree as a tree of the C09 printer / parser model (`Model.Format.Expr`); `none` = a cast, which
+    that model does not have -/
+def toFmt : HlslAst.Expr → Option Format.Expr
+  | .lit l => some (.lit (toFmtLit l))
+  | .ident s => some (.id s)
+  | .un op e =>
+    match RsslVerif.Gen.FmtTables.UnOp.ofName? op.name, toFmt e with
+    | some u, some e' => some (.un u e')
+    | _, _ => none
+  | .bin op a b =>
+    match RsslVerif.Gen.FmtTables.BinOp.ofName? op.name, toFmt a, toFmt b with
+    | some o, some a', some b' => some (.bin o a' b')
+    | _, _, _ => none
+  | .tern c t f =>
+    match toFmt c, toFmt t, toFmt f with
+    | some c', some t', some f' => some (.tern c' t' f')
+    | _, _, _ => none
+  | .cast _ _ => none
+  | .call f args => (toFmtArgs args).map (.call (.id f))
+def toFmtArgs : HlslAst.Exprs → Option Format.Args
+  | .nil => some .nil
+  | .cons e r =>
+    match toFmt e, toFmtArgs r with
+    | some e', some r' => some (.cons e' r')
+    | _, _ => none
+end
 
 /-- the second-generation elaboration of one expression position: the exported tree is read back, elaborated by
     `parse_expr` and converted to the type the position requires (`ctx`: the variable's type for an initialiser, the
